@@ -3,6 +3,7 @@ package main
 // C09 — source-table tie for events/ratelimiting/coalescing.go against coq/C09/SrcTab.v.
 
 import (
+	"go/ast"
 	"go/token"
 
 	"verifharness/srctab"
@@ -17,8 +18,11 @@ func table(t *srctab.T) {
 	max := p.Assign(nc, "maxDelay", token.DEFINE)
 	t.Emit("ratelimiting.NewCoalescing.maxDelay", p.Pos(max), srctab.Z(p.Eval(max.Rhs[0], nil)))
 	// &coalescing{… backoffFactor: 1 …}
-	lit := p.One(nc, "&coalescing{…}", isLit(p, "coalescing"))
-	bf := p.Field(lit.(*ast.CompositeLit), "backoffFactor")
+	lit := p.One(nc, "&coalescing{…}", func(n ast.Node) bool {
+		cl, ok := n.(*ast.CompositeLit)
+		return ok && cl.Type != nil && p.Src(cl.Type) == "coalescing"
+	}).(*ast.CompositeLit)
+	bf := p.Field(lit, "backoffFactor")
 	t.Emit("ratelimiting.NewCoalescing.backoffFactor", p.Pos(bf), srctab.Z(p.Eval(bf, nil)))
 	// handleInputCh: c.backoffFactor *= 2
 	mul := p.Assign(p.Func("coalescing.handleInputCh"), "c.backoffFactor", token.MUL_ASSIGN)
